@@ -656,6 +656,29 @@ class Folder:
                 self._bind(stmt.target, self.eval(stmt.value, scope), scope)
             elif isinstance(stmt, ast.Return) and stmt.value is not None:
                 return self.eval(stmt.value, scope)
+            elif (
+                isinstance(stmt, ast.Expr) and isinstance(stmt.value, ast.Call) and isinstance(stmt.value.func, ast.Attribute)
+                and isinstance(stmt.value.func.value, ast.Name) and isinstance(scope.locals.get(stmt.value.func.value.id), list)
+                and stmt.value.func.attr in ("sort", "append", "extend", "reverse", "insert")
+            ):
+                # in-place list methods on a local list that was folded
+                c = stmt.value
+                lst = scope.locals[c.func.value.id]  # type: ignore[union-attr]
+                args = [self.eval(a, scope) for a in c.args]
+                kws = {k.arg: self.eval(k.value, scope) for k in c.keywords}
+                if c.func.attr == "sort":  # type: ignore[union-attr]
+                    key = kws.get("key")
+                    if isinstance(key, Closure):
+                        kf = lambda v, key=key: self.call_closure(key, v)  # noqa: E731
+                    elif key is None:
+                        kf = None
+                    else:
+                        raise NotConst("sort key is not a lambda")
+                    lst.sort(key=kf, reverse=bool(kws.get("reverse", False)))
+                elif not kws:
+                    getattr(lst, c.func.attr)(*args)  # type: ignore[union-attr]
+                else:
+                    raise NotConst("keyword arguments of a list method")
             else:
                 raise NotConst(f"statement {type(stmt).__name__} in {fn.qualname}")
         raise NotConst(f"no return in {fn.qualname}")
